@@ -71,6 +71,7 @@ type State struct {
 	nextObj int
 	pc      []*Term
 	decided map[int]bool
+	eqc     map[int]*Term // terms known equal to a constant on this path
 	globals map[*ssa.Global]int
 	inited  map[*ssa.Package]bool
 	unwind  int
@@ -128,6 +129,10 @@ func (st *State) clone(newID int) *State {
 	n.decided = make(map[int]bool, len(st.decided))
 	for k, v := range st.decided {
 		n.decided[k] = v
+	}
+	n.eqc = make(map[int]*Term, len(st.eqc))
+	for k, v := range st.eqc {
+		n.eqc[k] = v
 	}
 	n.globals = make(map[*ssa.Global]int, len(st.globals))
 	for k, v := range st.globals {
@@ -521,6 +526,27 @@ func (st *State) assume(c *Term) {
 		st.decided[c.Args[0].ID] = false
 	} else {
 		st.decided[c.ID] = true
+	}
+	st.noteEq(c)
+}
+
+// noteEq records x == const facts for constant propagation in operand evaluation.
+func (st *State) noteEq(c *Term) {
+	if c.Op == "=" && c.Args[0].S.K == KBV {
+		a, b := c.Args[0], c.Args[1]
+		if a.IsConst() {
+			a, b = b, a
+		}
+		if b.IsConst() && !a.IsConst() {
+			if st.eqc == nil {
+				st.eqc = map[int]*Term{}
+			}
+			st.eqc[a.ID] = b
+			// also through zero extension
+			if a.Op == "zext" && b.Big == nil {
+				st.eqc[a.Args[0].ID] = BVC(a.Args[0].S.W, b.C)
+			}
+		}
 	}
 }
 
